@@ -135,7 +135,11 @@ Theorem C01_end_to_end_channels : forall o L md5, (forall l, length (md5 l) = 16
     FlacCodec.Stream.dec_stream (f_stream f) =
       Some (conv_si (f_si f), map FlacCodec.Stream.interleave_frame blocks, FlacCodec.Stream.EndEof) /\
     stack blocks (repeat [] (N.to_nat ch)) = all.
-Proof. intros. eapply e2e_channel_pcm; eauto. Qed.
+Proof.
+  intros o L md5 Hmd p rate bps wo ch total w chunks f Hwf Hnew Hch Hrun all Hfit Hlen.
+  destruct (e2e_channel_pcm o L md5 Hmd p rate bps wo ch total w chunks f Hwf Hnew Hch Hrun Hfit Hlen) as (blocks & A & B & _).
+  exists blocks. auto.
+Qed.
 
 (* C01 for FlacByteWriter, either byte order, on the bytes themselves: ANY chunking of the writes (also in the middle of a
    sample); the file decodes to exactly the whole PCM frames of the samples the bytes spell out *)
@@ -153,7 +157,11 @@ Theorem C01_end_to_end_bytes : forall o L md5, (forall l, length (md5 l) = 16%na
     FlacCodec.Stream.dec_stream (f_stream f) =
       Some (conv_si (f_si f), map FlacCodec.Stream.interleave_frame blocks, FlacCodec.Stream.EndEof) /\
     concat (map FlacCodec.Stream.interleave_frame blocks) = firstn (N.to_nat ch * (length samples / N.to_nat ch)) samples.
-Proof. intros. eapply e2e_byte_pcm; eauto. Qed.
+Proof.
+  intros o L md5 Hmd p rate bps en wo ch total w chunks f Hwf Hnew Hrun Hb n samples Hfit Hlen.
+  destruct (e2e_byte_pcm o L md5 Hmd p rate bps en wo ch total w chunks f Hwf Hnew Hrun Hb Hfit Hlen) as (blocks & A & B & _).
+  exists blocks. auto.
+Qed.
 
 (* C01 for FlacChannelWriter and FlacByteWriter with hypotheses on the input only: the run SUCCEEDS (no error, no
    panic, either build profile) under any chunking of the writes, and the finished file decodes to what was written *)
@@ -193,6 +201,63 @@ Theorem C01_byte_writer_lossless : forall o L md5, (forall l, length (md5 l) = 1
       firstn (N.to_nat ch * (length samples / N.to_nat ch)) samples.
 Proof. exact byte_writer_lossless. Qed.
 
+(* C01 down to the matching reader front-ends for the other two writers, hypotheses on the input only: what the
+   FlacChannelWriter model was given per channel is what the FlacChannelReader model delivers per channel, and the bytes
+   the FlacByteWriter model was given (whole PCM frames) are the bytes the FlacByteReader model of the same byte order
+   delivers — exactly once, in order, under EVERY seek-free call history (C07) *)
+Theorem C01_written_channels_are_read : forall o L md5, (forall l, length (md5 l) = 16%nat) ->
+  forall p rate bps wo ch total w chunks e rp,
+  options_wf wo ->
+  channel_new p [] wo rate bps ch total = Ok w ->
+  Forall (chunk_ok (N.to_nat ch)) chunks ->
+  let all := cconcat (N.to_nat ch) chunks in
+  forallb (FlacCodec.Wf.fits bps) (concat all) = true ->
+  let m := length (hd [] all) in
+  (1 <= m)%nat -> N.of_nat m < 2 ^ 36 ->
+  match total with Some T => T = N.of_nat m | None => True end ->
+  exists f blocks,
+    channel_run (encB o L rate bps) md5 p w chunks = Ok f /\
+    FlacCodec.Stream.dec_stream (f_stream f) =
+      Some (conv_si (f_si f), map FlacCodec.Stream.interleave_frame blocks, FlacCodec.Stream.EndEof) /\
+    let F := file_of_blocks blocks ch bps (Some (FlacCodec.Enc_proofs.blocks_samples blocks)) e rp in
+    FlacReaders.Spec.valid_file F /\
+    forall c, (c < N.to_nat ch)%nat ->
+      FlacReaders.Spec.chan_pcm F c = nth c all [] /\
+      forall ops, FlacReaders.Spec.no_cseek ops -> Forall FlacReaders.Spec.cop_ok (snd (FlacReaders.Seek.chan_run F ops)) ->
+        let atr := map (FlacReaders.Spec.abs_c F c) (snd (FlacReaders.Seek.chan_run F ops)) in
+        Forall (FlacReaders.Spec.cur_ok (nth c all [])) atr /\
+        FlacReaders.Spec.chained 0 atr (FlacReaders.Spec.cpos (fst (FlacReaders.Seek.chan_run F ops))) /\
+        FlacReaders.Spec.exactly_once (nth c all []) atr /\
+        Forall (FlacReaders.Spec.chan_shape F) (snd (FlacReaders.Seek.chan_run F ops)).
+Proof. exact written_channels_are_read. Qed.
+
+Theorem C01_written_bytes_are_read : forall o L md5, (forall l, length (md5 l) = 16%nat) ->
+  forall p rate bps en wo ch total w chunks rp,
+  options_wf wo ->
+  byte_new p en [] wo rate bps ch total = Ok w ->
+  Forall byte_ok (concat chunks) ->
+  let nb := bytes_per_sample_of bps in
+  let samples := decode_bytes en (N.to_nat nb) (concat chunks) in
+  forallb (FlacCodec.Wf.fits bps) samples = true ->
+  let W := N.of_nat (length samples) / ch in
+  let written := firstn (N.to_nat nb * (N.to_nat ch * (length samples / N.to_nat ch))) (concat chunks) in
+  1 <= W -> N.of_nat (length samples) < 2 ^ 36 ->
+  match total with Some T => T = nb * ch * W | None => True end ->
+  exists f blocks,
+    byte_run (encB o L rate bps) md5 p w chunks = Ok f /\
+    FlacCodec.Stream.dec_stream (f_stream f) =
+      Some (conv_si (f_si f), map FlacCodec.Stream.interleave_frame blocks, FlacCodec.Stream.EndEof) /\
+    let F := file_of_blocks blocks ch bps (Some (FlacCodec.Enc_proofs.blocks_samples blocks)) (conv_endian en) rp in
+    FlacReaders.Spec.valid_file F /\ FlacReaders.Spec.pcm_bytes F = written /\
+    forall ops, FlacReaders.Spec.no_bseek ops -> Forall FlacReaders.Spec.bop_ok (snd (FlacReaders.Seek.byte_run F ops)) ->
+      let atr := map (FlacReaders.Spec.abs_b F) (snd (FlacReaders.Seek.byte_run F ops)) in
+      Forall (FlacReaders.Spec.cur_ok written) atr /\
+      FlacReaders.Spec.chained 0 atr (FlacReaders.Spec.bpos F (fst (FlacReaders.Seek.byte_run F ops))) /\
+      FlacReaders.Spec.exactly_once written atr.
+Proof. exact written_bytes_are_read. Qed.
+
+Print Assumptions C01_written_bytes_are_read.
+Print Assumptions C01_written_channels_are_read.
 Print Assumptions C01_byte_writer_lossless.
 Print Assumptions C01_channel_writer_lossless.
 Print Assumptions C01_end_to_end_bytes.
